@@ -1,0 +1,521 @@
+/*!
+Verification seams, only compiled with `--cfg emit_rs_emit_verif`.
+
+Nothing in this module changes behavior unless a [`Hooks`] implementation has been
+installed on the current thread through [`install`]. Without one, every shim below
+forwards to the `std` or `tokio` item it stands in for.
+*/
+
+#![allow(missing_docs)]
+
+use std::{
+    cell::RefCell,
+    future::Future,
+    io,
+    pin::Pin,
+    sync::{Arc, TryLockError},
+    task::{Context, Poll, Waker},
+    time::Duration,
+};
+
+/**
+A simulated byte stream handed out by [`Hooks::connect`].
+*/
+#[cfg(feature = "tokio")]
+pub trait SimIo: ::tokio::io::AsyncRead + ::tokio::io::AsyncWrite + Send + Sync + Unpin {}
+
+#[cfg(feature = "tokio")]
+impl<T: ::tokio::io::AsyncRead + ::tokio::io::AsyncWrite + Send + Sync + Unpin> SimIo for T {}
+
+pub type BoxFuture<T> = Pin<Box<dyn Future<Output = T> + Send + 'static>>;
+
+/**
+The seams a simulator owns.
+*/
+pub trait Hooks: Send + Sync {
+    /// Called immediately before the channel state lock is acquired at `site`.
+    fn before_lock(&self, site: &'static str) {
+        let _ = site;
+    }
+
+    /// Called when the lock was found held after `before_lock` returned.
+    fn lock_contended(&self, site: &'static str) {
+        let _ = site;
+    }
+
+    /// The virtual monotonic clock.
+    fn now(&self) -> Duration;
+
+    /// Register `waker` to be woken once the virtual clock reaches `deadline`.
+    fn timer(&self, deadline: Duration, waker: &Waker) {
+        let _ = (deadline, waker);
+    }
+
+    /// Block the calling simulated thread for `delay` of virtual time.
+    fn sleep(&self, delay: Duration) {
+        let _ = delay;
+    }
+
+    /// Start a simulated thread.
+    fn spawn_thread(
+        &self,
+        name: Option<String>,
+        f: Box<dyn FnOnce() + Send + 'static>,
+    ) -> io::Result<std::thread::JoinHandle<()>> {
+        let _ = (name, f);
+        Err(io::Error::new(io::ErrorKind::Other, "not simulated"))
+    }
+
+    /// Wait on the condition variable identified by `cv`; the associated mutex is not held.
+    /// Returns `true` if the wait timed out.
+    fn condvar_wait(&self, cv: usize, timeout: Option<Duration>) -> bool {
+        let _ = (cv, timeout);
+        true
+    }
+
+    /// Wake every waiter of the condition variable identified by `cv`.
+    fn condvar_notify_all(&self, cv: usize) {
+        let _ = cv;
+    }
+
+    /// Run an async task on the simulated executor of the calling thread.
+    fn spawn_task(&self, task: BoxFuture<()>) {
+        let _ = task;
+    }
+
+    /// Run `worker` to completion on a simulated thread with a simulated executor.
+    fn spawn_worker(
+        &self,
+        name: String,
+        worker: BoxFuture<()>,
+    ) -> io::Result<std::thread::JoinHandle<()>> {
+        let _ = (name, worker);
+        Err(io::Error::new(io::ErrorKind::Other, "not simulated"))
+    }
+
+    /// Open a simulated connection.
+    #[cfg(feature = "tokio")]
+    fn connect(&self, host: &str, port: u16) -> BoxFuture<io::Result<Box<dyn SimIo>>> {
+        let _ = (host, port);
+        Box::pin(async { Err(io::Error::new(io::ErrorKind::Other, "not simulated")) })
+    }
+}
+
+thread_local! {
+    static CURRENT: RefCell<Option<Arc<dyn Hooks>>> = const { RefCell::new(None) };
+}
+
+/**
+Install (or with `None`, remove) the simulator for the current thread.
+*/
+pub fn install(hooks: Option<Arc<dyn Hooks>>) -> Option<Arc<dyn Hooks>> {
+    CURRENT.with(|current| std::mem::replace(&mut *current.borrow_mut(), hooks))
+}
+
+/**
+The simulator installed on the current thread, if any.
+*/
+pub fn current() -> Option<Arc<dyn Hooks>> {
+    CURRENT.try_with(|current| current.borrow().clone()).ok().flatten()
+}
+
+/**
+A scheduling point immediately before `mutex` is locked.
+*/
+pub(crate) fn before_lock<T>(mutex: &std::sync::Mutex<T>, site: &'static str) {
+    if let Some(hooks) = current() {
+        hooks.before_lock(site);
+
+        if let Err(TryLockError::WouldBlock) = mutex.try_lock() {
+            hooks.lock_contended(site);
+        }
+    }
+}
+
+/**
+A read-only view of the channel state.
+*/
+#[derive(Debug, Clone, Copy, PartialEq, Eq)]
+pub struct Snapshot {
+    pub pending: usize,
+    pub is_open: bool,
+    pub is_in_batch: bool,
+    pub on_take_watchers: usize,
+    pub on_flush_watchers: usize,
+}
+
+impl<T: crate::Channel> crate::Sender<T> {
+    /**
+    Read the channel state without passing through a scheduling point.
+    */
+    pub fn verif_snapshot(&self) -> Snapshot {
+        let state = self.shared.state.lock().unwrap();
+
+        Snapshot {
+            pending: state.next_batch.channel.len(),
+            is_open: state.is_open,
+            is_in_batch: state.is_in_batch,
+            on_take_watchers: state.next_batch.watchers.on_take.len(),
+            on_flush_watchers: state.next_batch.watchers.on_flush.len(),
+        }
+    }
+}
+
+/**
+A stand-in for `std::time::Instant` that reads the virtual clock under simulation.
+*/
+#[derive(Debug, Clone, Copy)]
+pub enum Instant {
+    Real(std::time::Instant),
+    Sim(Duration),
+}
+
+impl Instant {
+    pub fn now() -> Self {
+        match current() {
+            Some(hooks) => Instant::Sim(hooks.now()),
+            None => Instant::Real(std::time::Instant::now()),
+        }
+    }
+
+    pub fn elapsed(&self) -> Duration {
+        match *self {
+            Instant::Real(instant) => instant.elapsed(),
+            Instant::Sim(start) => match current() {
+                Some(hooks) => hooks.now().saturating_sub(start),
+                None => Duration::ZERO,
+            },
+        }
+    }
+}
+
+/**
+A stand-in for `std::sync::Mutex` whose guards can be waited on by [`Condvar`].
+*/
+pub struct Mutex<T>(std::sync::Mutex<T>);
+
+pub struct MutexGuard<'a, T> {
+    mutex: &'a Mutex<T>,
+    guard: Option<std::sync::MutexGuard<'a, T>>,
+}
+
+impl<T> Mutex<T> {
+    pub fn new(value: T) -> Self {
+        Mutex(std::sync::Mutex::new(value))
+    }
+
+    pub fn lock(&self) -> std::sync::LockResult<MutexGuard<'_, T>> {
+        if let Some(hooks) = current() {
+            hooks.before_lock("sync_trigger");
+        }
+
+        match self.0.lock() {
+            Ok(guard) => Ok(MutexGuard {
+                mutex: self,
+                guard: Some(guard),
+            }),
+            Err(poisoned) => Err(std::sync::PoisonError::new(MutexGuard {
+                mutex: self,
+                guard: Some(poisoned.into_inner()),
+            })),
+        }
+    }
+}
+
+impl<'a, T> std::ops::Deref for MutexGuard<'a, T> {
+    type Target = T;
+
+    fn deref(&self) -> &T {
+        self.guard.as_ref().unwrap()
+    }
+}
+
+impl<'a, T> std::ops::DerefMut for MutexGuard<'a, T> {
+    fn deref_mut(&mut self) -> &mut T {
+        self.guard.as_mut().unwrap()
+    }
+}
+
+/**
+The result of a timed wait on a [`Condvar`].
+*/
+#[derive(Debug, Clone, Copy)]
+pub struct WaitTimeoutResult(bool);
+
+impl WaitTimeoutResult {
+    pub fn timed_out(&self) -> bool {
+        self.0
+    }
+}
+
+/**
+A stand-in for `std::sync::Condvar` that blocks in the simulator when one is installed.
+*/
+pub struct Condvar(std::sync::Condvar);
+
+impl Condvar {
+    pub fn new() -> Self {
+        Condvar(std::sync::Condvar::new())
+    }
+
+    fn id(&self) -> usize {
+        self as *const Condvar as usize
+    }
+
+    pub fn notify_all(&self) {
+        match current() {
+            Some(hooks) => hooks.condvar_notify_all(self.id()),
+            None => self.0.notify_all(),
+        }
+    }
+
+    pub fn wait_timeout<'a, T>(
+        &self,
+        mut guard: MutexGuard<'a, T>,
+        timeout: Duration,
+    ) -> std::sync::LockResult<(MutexGuard<'a, T>, WaitTimeoutResult)> {
+        match current() {
+            Some(hooks) => {
+                let mutex = guard.mutex;
+
+                // Only one simulated thread runs at a time, and there's no scheduling
+                // point between releasing the lock and registering as a waiter, so
+                // the unlock-and-wait is atomic as far as other simulated threads can tell
+                drop(guard);
+
+                let timed_out = hooks.condvar_wait(self.id(), Some(timeout));
+
+                let guard = match mutex.0.lock() {
+                    Ok(guard) => guard,
+                    Err(poisoned) => poisoned.into_inner(),
+                };
+
+                Ok((
+                    MutexGuard {
+                        mutex,
+                        guard: Some(guard),
+                    },
+                    WaitTimeoutResult(timed_out),
+                ))
+            }
+            None => {
+                let inner = guard.guard.take().unwrap();
+                let mutex = guard.mutex;
+
+                match self.0.wait_timeout(inner, timeout) {
+                    Ok((inner, r)) => Ok((
+                        MutexGuard {
+                            mutex,
+                            guard: Some(inner),
+                        },
+                        WaitTimeoutResult(r.timed_out()),
+                    )),
+                    Err(poisoned) => {
+                        let (inner, r) = poisoned.into_inner();
+
+                        Err(std::sync::PoisonError::new((
+                            MutexGuard {
+                                mutex,
+                                guard: Some(inner),
+                            },
+                            WaitTimeoutResult(r.timed_out()),
+                        )))
+                    }
+                }
+            }
+        }
+    }
+}
+
+/**
+A stand-in for `std::thread`.
+*/
+pub mod thread {
+    pub use std::thread::*;
+
+    use std::{io, time::Duration};
+
+    pub fn sleep(delay: Duration) {
+        match super::current() {
+            Some(hooks) => hooks.sleep(delay),
+            None => std::thread::sleep(delay),
+        }
+    }
+
+    pub struct Builder {
+        name: Option<String>,
+    }
+
+    impl Builder {
+        pub fn new() -> Self {
+            Builder { name: None }
+        }
+
+        pub fn name(mut self, name: String) -> Self {
+            self.name = Some(name);
+            self
+        }
+
+        pub fn spawn<F>(self, f: F) -> io::Result<std::thread::JoinHandle<()>>
+        where
+            F: FnOnce() + Send + 'static,
+        {
+            match super::current() {
+                Some(hooks) => hooks.spawn_thread(self.name, Box::new(f)),
+                None => {
+                    let mut builder = std::thread::Builder::new();
+
+                    if let Some(name) = self.name {
+                        builder = builder.name(name);
+                    }
+
+                    builder.spawn(f)
+                }
+            }
+        }
+    }
+}
+
+/**
+A stand-in for the `tokio` crate root.
+*/
+#[cfg(feature = "tokio")]
+pub mod tokio_shim {
+    pub use ::tokio::*;
+
+    use std::future::Future;
+
+    pub fn spawn<F>(task: F)
+    where
+        F: Future + Send + 'static,
+        F::Output: Send + 'static,
+    {
+        task::spawn(task)
+    }
+
+    pub mod task {
+        pub use ::tokio::task::*;
+
+        use std::future::Future;
+
+        pub fn spawn<F>(task: F)
+        where
+            F: Future + Send + 'static,
+            F::Output: Send + 'static,
+        {
+            match crate::verif::current() {
+                Some(hooks) => hooks.spawn_task(Box::pin(async move {
+                    let _ = task.await;
+                })),
+                None => {
+                    let _ = ::tokio::task::spawn(task);
+                }
+            }
+        }
+    }
+
+    pub mod time {
+        pub use ::tokio::time::{Duration, Instant};
+
+        use std::{
+            fmt,
+            future::Future,
+            pin::Pin,
+            sync::Arc,
+            task::{Context, Poll},
+        };
+
+        use crate::verif::Hooks;
+
+        enum SleepInner {
+            Real(Pin<Box<::tokio::time::Sleep>>),
+            Sim {
+                hooks: Arc<dyn Hooks>,
+                deadline: Duration,
+            },
+        }
+
+        pub struct Sleep(SleepInner);
+
+        pub fn sleep(delay: Duration) -> Sleep {
+            match crate::verif::current() {
+                Some(hooks) => {
+                    let deadline = hooks.now().saturating_add(delay);
+
+                    Sleep(SleepInner::Sim { hooks, deadline })
+                }
+                None => Sleep(SleepInner::Real(Box::pin(::tokio::time::sleep(delay)))),
+            }
+        }
+
+        impl Future for Sleep {
+            type Output = ();
+
+            fn poll(mut self: Pin<&mut Self>, cx: &mut Context<'_>) -> Poll<()> {
+                match self.0 {
+                    SleepInner::Real(ref mut sleep) => sleep.as_mut().poll(cx),
+                    SleepInner::Sim {
+                        ref hooks,
+                        deadline,
+                    } => {
+                        if hooks.now() >= deadline {
+                            Poll::Ready(())
+                        } else {
+                            hooks.timer(deadline, cx.waker());
+
+                            Poll::Pending
+                        }
+                    }
+                }
+            }
+        }
+
+        #[derive(Debug)]
+        pub struct Elapsed(());
+
+        impl fmt::Display for Elapsed {
+            fn fmt(&self, f: &mut fmt::Formatter) -> fmt::Result {
+                f.write_str("deadline has elapsed")
+            }
+        }
+
+        impl std::error::Error for Elapsed {}
+
+        pub struct Timeout<F> {
+            future: Pin<Box<F>>,
+            sleep: Sleep,
+        }
+
+        pub fn timeout<F: Future>(duration: Duration, future: F) -> Timeout<F> {
+            Timeout {
+                future: Box::pin(future),
+                sleep: sleep(duration),
+            }
+        }
+
+        impl<F: Future> Future for Timeout<F> {
+            type Output = Result<F::Output, Elapsed>;
+
+            fn poll(self: Pin<&mut Self>, cx: &mut Context<'_>) -> Poll<Self::Output> {
+                // SAFETY: Neither field is moved out of; both are independently pinned or `Unpin`
+                let this = unsafe { self.get_unchecked_mut() };
+
+                if let Poll::Ready(r) = this.future.as_mut().poll(cx) {
+                    return Poll::Ready(Ok(r));
+                }
+
+                match Pin::new(&mut this.sleep).poll(cx) {
+                    Poll::Ready(()) => Poll::Ready(Err(Elapsed(()))),
+                    Poll::Pending => Poll::Pending,
+                }
+            }
+        }
+    }
+}
+
+/**
+Poll `future` once with `waker`; a convenience for simulators driving futures by hand.
+*/
+pub fn poll_once<F: Future + ?Sized>(future: Pin<&mut F>, waker: &Waker) -> Poll<F::Output> {
+    future.poll(&mut Context::from_waker(waker))
+}
